@@ -382,6 +382,12 @@ def check_function(rep, m, f, lay, cname):
                             hi = ranges.MAXU
                     if hi == ranges.MAXU or hi >= (1 << 31):
                         continue           # nothing known: not decided (no alarm)
+                    if hi >= bound and not _bound_is_attained(f, RG, idx, i.block.name, hi):
+                        # the interval is an over-approximation (bit operations, loop joins, selects): the bound may not
+                        # be reachable, so this is no finding
+                        rep.unproved_item("C12.D2", "%s (%s): subscript interval [%d, %d] of an array of %d computed through "
+                                          "inexact operations; not decided" % (f.name, cname, lo, hi, bound))
+                        continue
                     if hi >= bound:
                         rep.violation("C12.D2", "%s:idx<=%d:of%d" % (f.name, hi, bound), i.where(),
                                       "%s: the guards bound this subscript to [%d, %d] but the array has %d "
@@ -400,6 +406,34 @@ def check_function(rep, m, f, lay, cname):
                     rep.instance("C12.D4", 1)
         elif i.op in ("call", "invoke"):
             check_memop(rep, m, f, i, R, lay, cname)
+
+
+def _bound_is_attained(f, RG, idx, block, hi):
+    """is the upper end of the index interval the value that a dominating guard
+    (or an I/O contract) admits for the index itself, reached only through
+    exact steps (width changes, +/- constant)?  Intervals that come out of bit
+    operations, loop-carried values or selects are over-approximations."""
+    v, off = idx, 0
+    for _ in range(8):
+        d = f.defs.get(v) if ir.is_local(v) else None
+        if d is None:
+            break
+        if d.op in ("zext", "sext", "trunc"):
+            v = d.ops[0]
+            continue
+        if d.op in ("add", "sub") and ir.const_int(d.ops[1]) is not None:
+            off += ir.const_int(d.ops[1]) if d.op == "add" else -ir.const_int(d.ops[1])
+            v = d.ops[0]
+            continue
+        break
+    d = f.defs.get(v) if ir.is_local(v) else None
+    if d is not None and d.op == "call" and (d.callee or "") in ranges.RESULT_AT_MOST_ARG:
+        return True
+    if d is not None and d.op not in ("load", "call", "phi") and v not in f.params:
+        return False
+    # a loop-carried or merged value counts only when a guard tests that very value
+    guards = [h2 for (x, l2, h2) in RG.dominating_constraints(block) if x == v and h2 < ranges.MAXU]
+    return bool(guards) and min(guards) + off == hi
 
 
 def _member_extent(f, p, depth=0):
